@@ -161,8 +161,9 @@ Proof.
 Qed.
 Lemma E_handle_offer e a : E (handle_offer e a).
 Proof.
-  intros w. unfold handle_offer. destruct (negb (is_watching e w)); [apply ext_refl|].
-  destruct (from_offer_entry e); [|apply ext_refl]. destruct (e_ttl e =? 0); [apply E_store_stop|apply E_store_refresh].
+  intros w. unfold handle_offer.
+  destruct (from_offer_entry e); [|apply ext_refl]. destruct (e_ttl e =? 0); [apply E_store_stop|].
+  destruct (negb (is_watching e w)); [apply ext_refl|apply E_store_refresh].
 Qed.
 Lemma E_discovery_start : E discovery_start.
 Proof.
